@@ -371,12 +371,21 @@ def check_patchify(spec):
         raise Violation("patchify-image:unpatchify-is-not-the-inverse", "")
     sh = T.PatchwiseShuffle().set_rng(rng_of(spec))
     qs = sh(q.clone(), ctx)
-    perm = np.asarray(ctx["permutation"])
+    perm = np.array(ctx["permutation"], copy=True)
     if sorted(perm.tolist()) != list(range(lh * lw)):
         raise Violation("patchwise-shuffle:recorded-permutation-invalid", str(perm))
     back = qs[:, np.argsort(perm)]
     if not torch.equal(T.UnpatchifyImage()(back, ctx), x):
         raise Violation("patchwise-shuffle:recorded-permutation-does-not-undo", "")
+    # the same instance shuffles a second sample: the permutation recorded for the first one must still undo the first output
+    ctx2 = {}
+    q2 = T.PatchifyImage((ph, pw))(x.clone() + 1, ctx2)
+    qs2 = sh(q2.clone(), ctx2)
+    perm_again = np.asarray(ctx["permutation"])
+    if not np.array_equal(perm_again, perm):
+        raise Violation("patchwise-shuffle:earlier-recorded-permutation-changed-by-a-later-call", f"{perm.tolist()} became {perm_again.tolist()}")
+    if not torch.equal(T.UnpatchifyImage()(qs2[:, np.argsort(np.asarray(ctx2["permutation"]))], ctx2), x + 1):
+        raise Violation("patchwise-shuffle:recorded-permutation-does-not-undo:second-call", "")
     return Case(ph != pw or lh != lw, [])
 
 
